@@ -396,6 +396,100 @@ func (w *world) fire(step pbft.RoundStepType) bool {
 	return false
 }
 
+// puppetsByPower returns the puppets in a seeded order.
+func (w *world) puppetsInOrder() []int {
+	var o []int
+	for _, k := range w.rng.Perm(w.n) {
+		if k != w.V {
+			o = append(o, k)
+		}
+	}
+	return o
+}
+
+// moveOn makes V leave round r with +2/3-any nil precommits.
+func (w *world) moveOn(r int64) {
+	w.votesFrom(types.VoteTypePrecommit, r, nil, 1.0)
+	w.fire(pbft.RoundStepPrecommitWait)
+}
+
+// scenarioRelockThenLatePolka: V locks B in round r0, a polka for C forms in r0+1 but V sees only part
+// of it before it precommits nil, B gets a new polka in r0+2 (V precommits B again), the rest of the
+// r0+1 prevotes for C arrives late, and a fresh block D is proposed in r0+3.
+func (w *world) scenarioRelockThenLatePolka() {
+	rs := w.rs()
+	if rs.Height != w.h || w.failed {
+		return
+	}
+	r0 := rs.Round
+	p := w.proposerAt(r0)
+	var B *blk
+	if p == w.V {
+		w.drain()
+		w.learnOwn()
+		if len(w.blocks) > 0 {
+			B = w.blocks[len(w.blocks)-1]
+		}
+	} else if p >= 0 {
+		if B = w.newBlock(p); B != nil {
+			w.propose(r0, B, true, false)
+		}
+	}
+	if B == nil {
+		return
+	}
+	w.log("scenario relock: B=%.8s", B.hex)
+	w.fire(pbft.RoundStepPropose)
+	w.votesFrom(types.VoteTypePrevote, r0, B, 1.0) // polka B: V locks and precommits B
+	w.moveOn(r0)
+	// r0+1: C proposed; V (locked) prevotes B; only some prevotes for C reach V before the timeout
+	r1 := r0 + 1
+	var C *blk
+	if p1 := w.proposerAt(r1); p1 >= 0 && p1 != w.V {
+		if C = w.newBlock(p1); C != nil {
+			w.propose(r1, C, true, false)
+		}
+	}
+	w.fire(pbft.RoundStepPropose)
+	order := w.puppetsInOrder()
+	var late []int
+	if C != nil {
+		for _, j := range order {
+			// stop before C reaches +2/3 at V, but make sure +2/3-any is reached
+			if (w.power(types.VoteTypePrevote, r1, C.hex)+w.powers[j])*3 > w.total*2 {
+				late = append(late, j)
+				continue
+			}
+			w.vote(j, types.VoteTypePrevote, r1, C, "valid")
+		}
+	}
+	w.fire(pbft.RoundStepPrevoteWait)
+	w.moveOn(r1)
+	// r0+2: B again, full polka -> V precommits B again
+	r2 := r0 + 2
+	if p2 := w.proposerAt(r2); p2 >= 0 && p2 != w.V {
+		w.propose(r2, B, true, false)
+	}
+	w.fire(pbft.RoundStepPropose)
+	w.votesFrom(types.VoteTypePrevote, r2, B, 1.0)
+	// the late prevotes of r0+1 for C arrive now: a polka of an EARLIER round than V's last precommit
+	if C != nil {
+		for _, j := range late {
+			w.vote(j, types.VoteTypePrevote, r1, C, "valid")
+		}
+		w.stats["scenario_relock_late_polka"]++
+	}
+	w.moveOn(r2)
+	// r0+3: a fresh block is proposed; V must still prevote B
+	r3 := r0 + 3
+	if p3 := w.proposerAt(r3); p3 >= 0 && p3 != w.V {
+		if D := w.newBlock(p3); D != nil {
+			w.propose(r3, D, true, false)
+		}
+	}
+	w.fire(pbft.RoundStepPropose)
+}
+
 func (w *world) anyBlock() *blk {
 	if len(w.blocks) == 0 || w.rng.Float64() < 0.15 {
 		return nil
@@ -519,6 +613,9 @@ func runCase(run *lib.Run, c int64, base string) {
 	w.adv = sim.NewAdversary(net, rng, byz)
 	w.resetHeight(1)
 	w.fire(pbft.RoundStepNewHeight)
+	if c%6 == 0 {
+		w.scenarioRelockThenLatePolka()
+	}
 	steps := lib.Pick(120, 200)
 	for s := 0; s < steps && !w.failed; s++ {
 		w.step()
